@@ -713,7 +713,20 @@ def _gen_default_case(rng):
             "erf": rng.choice(["default", "default", "default", None, rs(0.5)])}
     if rng.random() < 0.5:
         case["absdelta"] = rs(rng.choice([1e-3, 1e-1, 1.0, 10.0]))
-    if rng.random() < 0.6:
+    if rng.random() < 0.5:
+        # start close to a minimiser (generator-side scipy search): the gradient magnitude is small, the CG's residual bound
+        # min(.5, sqrt(mag))*mag is tight, and with a previous energy far above the start the ENERGY criterion stops the CG
+        try:
+            from scipy.optimize import minimize as _spmin
+            xf0 = [float(v) for v in x0]
+            sol = _spmin(lambda z: _pyval(poly, list(z)), xf0, jac=lambda z: np.array(_pygrad(poly, list(z))), method="BFGS")
+            if sol.success or sol.fun < _pyval(poly, xf0):
+                x0 = [Fraction(round(float(z) * 64), 64) + Fraction(rng.randint(-2, 2), 128) for z in sol.x]
+                case["x0"] = [rs(v) for v in x0]
+                case["near_min"] = True
+        except Exception:
+            pass
+    if case.get("near_min") or rng.random() < 0.6:
         # a previous energy far above the start: the CG's energy criterion (energy_reduction_factor*(old_fval - energy))
         # is generous and stops the inner solver before its residual criterion
         case["old_fval"] = rs(float(_pyval(poly, [float(v) for v in x0])) + rng.choice([0.5, 2.0, 10.0, 100.0, 1000.0]))
@@ -899,6 +912,8 @@ def _check(ctx, cases):
             ctx.stat("neartie_trial")
         if c.get("nan"):
             ctx.stat("nan_region")
+        if c.get("near_min"):
+            ctx.stat("near_min_start_energy_criterion")
         if c.get("trust_target"):
             ctx.stat("trust_slightly_uphill_trial")
         if c.get("trust_mixed"):
